@@ -11,6 +11,10 @@ from harness import core
 
 
 def main():
+    if 'PYTHONHASHSEED' not in os.environ:
+        # set / dict-of-str iteration order feeds the generators: pin it so that a (VERIF_SEED, tier) run replays exactly
+        os.environ['PYTHONHASHSEED'] = str(int(os.environ.get('VERIF_SEED', '0') or 0) % 4294967295)
+        os.execv(sys.executable, [sys.executable] + sys.argv)
     import logging, warnings
     warnings.simplefilter('ignore')
     logging.disable(logging.CRITICAL)      # deepdiff logs every tolerated delta error; checks that need them re-enable logging locally
